@@ -250,7 +250,10 @@ Proof.
   unfold eng_rename. pose proof (sim_lookup d1 d2 o H) as R.
   destruct (get_entry d1 o) as [e1|], (get_entry d2 o) as [e2|]; cbn [orel] in R; try contradiction; cbn [fst snd];
     (split; [reflexivity|]); [|exact H].
-  apply sim_put; [apply sim_del; exact H|exact R].
+  apply sim_put; [|exact R].
+  destruct (e_exp e1), (e_exp e2);
+    repeat first [apply sim_index_set_l | apply sim_index_set_r | apply sim_index_del_l | apply sim_index_del_r];
+    apply sim_del; exact H.
 Qed.
 End Strings.
 
@@ -572,6 +575,7 @@ Lemma step_dbs_sim t1 t2 a b dbi parts o :
 Proof.
   intros Hc H F1 F2. unfold step_dbs, cmd_name in *.
   destruct parts as [|first rest]; [exact H|]. destruct first; try exact H.
+  rewrite (pre_dbs_fresh t1 a dbi _ _ F1), (pre_dbs_fresh t2 b dbi _ _ F2). unfold dstep_dbs.
   repeat match goal with |- context [if ?c then _ else _] => destruct c end; try exact H; try (apply sims_flush; exact H).
   pose proof (exec_db_sim t1 t2 _ _ (upper b0) (FBulk b0 :: rest) o Hc (sims_nth a b (Z.to_nat dbi) H)
                 (fresh_all_nth t1 a _ F1) (fresh_all_nth t2 b _ F2)) as X.
